@@ -266,6 +266,36 @@ class Handles:
                                     continue
                                 yield ent, p, loc, tr, e
 
+    # ---- H6: a periodic call created on one path and started on another: stop() in between asserts ----------------
+    def unstarted_loops(self):
+        """LoopingCall.stop() asserts that the loop is running.  A LoopingCall stored in a handle location on a path that does not start it
+        can be found there, not running, by whatever stops that location under a not-None / truthiness test only.
+        Yields (creating context, LOOPNEW event, location, stopping context, CANCEL event)."""
+        for tr in contexts(self.cat):
+            evs = tr.events
+            for i, e in enumerate(evs):
+                if e.kind != "LOOPNEW":
+                    continue
+                h = e.a["handle"]
+                st = [x for x in evs[i:] if x.kind == "SETATTR" and x.a["val"] == h]
+                if not st:
+                    continue
+                loc = self.obj_location(st[0].a["obj"], tr)
+                if loc is None:
+                    continue
+                loc = loc + (self.logical(st[0].a["field"]),)
+                where_ = ("attr", st[0].a["obj"], st[0].a["field"])
+                if any(x.kind == "ARM" and x.a.get("how") == "LoopingCall.start" and x.a.get("handle") in (h, where_) for x in evs[i:]):
+                    continue
+                for tr2 in contexts(self.cat):
+                    for e2 in tr2.events:
+                        if e2.kind == "CANCEL" and e2.a.get("how") == "stop" and self.handle_location(e2.a["handle"], tr2) == loc:
+                            yield tr, e, loc, tr2, e2
+                            break
+                    else:
+                        continue
+                    break
+
     # ---- H5: a cancelled handle left stored, cancelled again later ------------------------------------------
     def cancelled_kept(self):
         """Yields (context, cancel event, location, later context, later cancel event): a path cancels the handle stored at a
